@@ -33,6 +33,25 @@ def _int_const(e):
     return None
 
 
+def _ctor_field_const(ctx, f, at, e):
+    """`err.code` where `err` is bound (on every reaching definition) to a constructor call that
+    passes `code=<int constant>`: that constant"""
+    if not (isinstance(e, ast.Attribute) and isinstance(e.value, ast.Name)):
+        return None
+    from .shared import reaching_defs
+
+    vals = set()
+    for v in reaching_defs(ctx, f, at, e.value.id):
+        if not isinstance(v, ast.Call):
+            return None
+        kw = next((k.value for k in v.keywords if k.arg == e.attr), None)
+        c = _int_const(kw) if kw is not None else None
+        if c is None:
+            return None
+        vals.add(c)
+    return vals.pop() if len(vals) == 1 else None
+
+
 def rpc_error_classes(ctx):
     """Repo exception classes caught by name in the dispatcher."""
     f, _ = dispatcher(ctx)
@@ -162,6 +181,23 @@ def _notif_test(e, req):
     return None
 
 
+def _plain_ctor(ctx, cq):
+    """the class's __init__ (if any) consists of plain stores of its parameters / constants"""
+    q = ctx.m.method(cq, "__init__")
+    if not q:
+        return True
+    g = ctx.m.funcs[q]
+    for st in g.node.body:
+        if isinstance(st, ast.Expr) and isinstance(st.value, ast.Constant):
+            continue
+        if isinstance(st, (ast.Assign, ast.AnnAssign)) and not any(isinstance(x, (ast.Call, ast.Subscript, ast.Await)) for x in ast.walk(st)):
+            continue
+        if isinstance(st, ast.Pass):
+            continue
+        return False
+    return True
+
+
 def _benign_raise_site(ctx, f, node, req, facts_at):
     """Raise sites of the dispatcher that the premises exclude (DESIGN C01.R5):
     logging, traceback formatting, str(), reads of the message dict."""
@@ -179,6 +215,12 @@ def _benign_raise_site(ctx, f, node, req, facts_at):
                     continue
                 if d in ("traceback.format_exc", "str", "repr", "type"):
                     continue
+                # building one of the repo's own exception objects whose constructor only stores
+                # its arguments (no call, no raise inside): cannot fail
+                if isinstance(n.func, ast.Name):
+                    cq = ctx.m.resolve_class_name(f.rel, n.func.id)
+                    if cq is not None and _plain_ctor(ctx, cq):
+                        continue
                 if isinstance(n.func, ast.Attribute) and n.func.attr == "get" and isinstance(n.func.value, (ast.Name, ast.Dict)):
                     if isinstance(n.func.value, ast.Dict) or n.func.value.id == req:
                         continue
@@ -277,7 +319,7 @@ def r2(ctx, R):
                         if not okc:
                             problems[(where, "code")] = (call, f"RPC error answered with code {unparse(code) if code is not None else '?'} instead of the error's own code")
                     else:
-                        if _int_const(code) != INTERNAL_ERROR:
+                        if _int_const(code) != INTERNAL_ERROR and _ctor_field_const(ctx, f, call, code) != INTERNAL_ERROR:
                             problems[(where, "code")] = (call, f"handler failure answered with code {unparse(code) if code is not None else '?'} instead of -32603 (InternalError)")
                 nresp = min(2, nresp + 1)
         if lab and lab[0] in ("T", "F"):
